@@ -8,6 +8,8 @@ impl<T> VIter<T> {
         // stated for every predicate p that determines the closure's result (whenever the closure returns b on x,
         // b == p(x)); `f.ensures` only gives this direction, and it avoids lambda extensionality
         ensures forall|p: spec_fn(T) -> bool| (forall|x: T, b: bool| #[trigger] f.ensures((&x,), b) ==> b == p(x)) ==> r@ == #[trigger] self@.filter(p),
+            // (also usable when the closure is not fully specified) nothing is invented, and only accepted elements are kept
+            forall|i: int| 0 <= i < r@.len() ==> self@.contains(#[trigger] r@[i]) && f.ensures((&r@[i],), true),
     { unimplemented!() }
     #[verifier::external_body]
     pub fn collect(self) -> (r: Vec<T>) ensures r@ == self@ { unimplemented!() }
@@ -84,4 +86,9 @@ pub fn vf_into_viter<T>(v: Vec<T>) -> (r: VIter<T>) ensures r@ == v@ { unimpleme
 pub fn vf_map_into<T, U, F: Fn(T) -> U>(v: Vec<T>, f: F) -> (r: Vec<U>)
     requires forall|i: int| 0 <= i < v@.len() ==> f.requires((#[trigger] v@[i],))
     ensures r@.len() == v@.len(), forall|i: int| 0 <= i < v@.len() ==> f.ensures((v@[i],), #[trigger] r@[i])
+{ unimplemented!() }
+// `v.iter().any(f)`
+#[verifier::external_body]
+pub fn vf_any<T, F: Fn(&T) -> bool>(v: &Vec<T>, f: F) -> (r: bool)
+    requires forall|x: T| #[trigger] f.requires((&x,))
 { unimplemented!() }
